@@ -44,8 +44,8 @@ const (
 )
 
 var tokens = [][]byte{
-	{0xFF, 0xFF, 0xFF, 0xFF, 0x07}, // VarInt 2^31-1
-	{0xFF, 0xFF, 0xFF, 0xFF, 0x0F}, // VarInt -1
+	{0xFF, 0xFF, 0xFF, 0xFF, 0x07},       // VarInt 2^31-1
+	{0xFF, 0xFF, 0xFF, 0xFF, 0x0F},       // VarInt -1
 	{0x80, 0x80, 0x80, 0x80, 0x80, 0x80}, // over-long VarInt
 	{0x00}, {0x7F}, {0xFF},
 }
@@ -63,14 +63,14 @@ type rp struct {
 
 // cellResult is what the child reports per cell.
 type cellResult struct {
-	Cell     int              `json:"cell"`
-	Evals    int64            `json:"evals"`
-	Nontriv  int64            `json:"nontriv"`
-	Classes  map[string]int64 `json:"classes"`
-	Vios     []vio            `json:"vios"`
-	Notes    []string         `json:"notes"`
-	Seeds    int              `json:"seeds"`
-	MaxAlloc uint64           `json:"max_alloc"`
+	Cell     int               `json:"cell"`
+	Evals    int64             `json:"evals"`
+	Nontriv  int64             `json:"nontriv"`
+	Classes  map[string]int64  `json:"classes"`
+	Vios     []vio             `json:"vios"`
+	Notes    []string          `json:"notes"`
+	Seeds    int               `json:"seeds"`
+	MaxAlloc uint64            `json:"max_alloc"`
 	Sample   map[string]string `json:"sample,omitempty"`
 }
 
@@ -723,7 +723,7 @@ func runParent(r *vrt.R) {
 			}
 		}
 	}
-	r.Extra("max_alloc_single_case_bytes(shard max)", fmt.Sprint(maxAlloc[r]))
+	r.Note(fmt.Sprintf("shard %d: largest allocation measured for a single payload: %d bytes", r.Shard, maxAlloc[r]))
 }
 
 func TestVerif(t *testing.T) {
